@@ -238,9 +238,10 @@ def rule_fatal(ctx):
     ab = [n for n in cx.nodes if n.kind == "await" and "abort_transaction" in unparse(n.ast)]
     cm = [n for n in cx.nodes if n.kind == "await" and "commit_transaction" in unparse(n.ast)]
     ft = [t for t in cx.nodes if t.kind == "test" and isinstance(t.ast, ast.Call) and call_attr(t.ast) == "is_fatal_error"]
-    et = [t for t in cx.nodes if t.kind == "test" and is_none_test(t.ast, negate=True) is not None and unparse(is_none_test(t.ast, negate=True)) == fx.params()[1]]
-    ok = len(ab) == 1 and len(cm) == 1 and len(ft) == 1 and len(et) == 1 and cx.dominated_by_branch(ft[0], "F", ab[0]) and cx.dominated_by_branch(et[0], "T", ab[0]) \
-        and cx.dominated_by_branch(et[0], "F", cm[0])
+    from ..rulekit import none_tests
+    et = none_tests(cx, fx.params()[1])   # (test, label `exc_type is None`, label `is not None`)
+    ok = len(ab) == 1 and len(cm) == 1 and len(ft) == 1 and len(et) == 1 and cx.dominated_by_branch(ft[0], "F", ab[0]) and cx.dominated_by_branch(et[0][0], et[0][2], ab[0]) \
+        and cx.dominated_by_branch(et[0][0], et[0][1], cm[0])
     ctx.ob(R, fx, fx.node, ok, "context exit: exception -> abort (unless fatal), no exception -> commit", text="aexit")
     fe = ctx.fn("aiokafka.producer.producer.TransactionContext.__aenter__")
     ctx.ob(R, fe, fe.node, any("begin_transaction" in unparse(n.ast) for n in ctx.cfg(fe).nodes if n.kind == "await"), "context enter does not begin", text="aenter")
